@@ -131,3 +131,34 @@ Theorem C03_spinfree_unused_label :
   sval R rO radd ropp norb (l :: L) s V d = rmul (radd rI rI) (sval R rO radd ropp norb L s V d).
 Proof. exact sval_unused_label. Qed.
 Print Assumptions C03_spinfree_unused_label.
+
+(* ... and iterated (SpinWickExp.v): the full spin-summed expansion, term by term with its factor and remaining label set,
+   has the value of the original pattern, for every well-formed pattern (each label on at most one creator and at most
+   one annihilator, as wick.py enforces), every fuel, orbital count, vector and ring *)
+From FQE Require Import SpinWickExp.
+Theorem C03_spinfree_wick_expansion_sound :
+  forall (R : Type) (rO rI : R) (radd rmul rsub : R -> R -> R) (ropp : R -> R),
+  ring_theory rO rI radd rmul rsub ropp eq ->
+  forall (norb fuel : nat) (c : R) (L : list nat) (s : list sop) (V : vec R) (d : det),
+  wf norb L s -> wide R (norb + norb) V ->
+  tsum R rO radd rmul ropp norb (sexpand R rI radd rmul ropp fuel c L s) V d
+  = rmul c (sval R rO radd ropp norb L s V d).
+Proof. exact sexpand_sound. Qed.
+Print Assumptions C03_spinfree_wick_expansion_sound.
+
+(* non-vacuity: the spin-free pattern 'i j^' at i = j (one label): a_i a†_i -> - a†_i a_i + 2 *)
+From Coq Require Import ZArith.
+Example C03_spinfree_example :
+  sexpand Z 1%Z Z.add Z.mul Z.opp 3 1%Z [0] [mksop 0 false 0; mksop 0 true 0]
+  = [((-1)%Z, [0], [mksop 0 true 0; mksop 0 false 0]); (2%Z, [], [])].
+Proof. vm_compute. reflexivity. Qed.
+
+(* the final spin sort of wick.py exchanges adjacent creators (or adjacent annihilators): each exchange flips the sign of
+   the spin-summed value - also for operators on the same spin orbital, where both orders vanish *)
+Theorem C03_spinfree_same_kind_swap :
+  forall (R : Type) (rO rI : R) (radd rmul rsub : R -> R -> R) (ropp : R -> R),
+  ring_theory rO rI radd rmul rsub ropp eq ->
+  forall norb L pre x y post (V : vec R) d, sdag x = sdag y ->
+  sval R rO radd ropp norb L (pre ++ [x; y] ++ post) V d = ropp (sval R rO radd ropp norb L (pre ++ [y; x] ++ post) V d).
+Proof. exact sval_swap_same_kind. Qed.
+Print Assumptions C03_spinfree_same_kind_swap.
